@@ -51,6 +51,8 @@ def _run_one(job):
             from sa.core import report
             known = {e['key'] for e in report.load_known() if e.get('kind') == 'known'}
             fkeys = [f for f in run.findings if f.key not in known]
+            if run.errors and not fkeys:
+                return (idx, 'error', 'analysis error: %s' % run.errors[0])
         except (AnalysisError, NormError) as e:
             return (idx, 'error', 'analysis error: %s' % e)
         except Exception as e:       # noqa
